@@ -3865,6 +3865,22 @@ skip_pcr:
     if (rc == TPM_RC_SUCCESS) {
         rc = UINT32_Unmarshal((UINT32 *)&s_freeSessionSlots, buffer, size);
     }
+    /* SessionCreate() and SessionContextLoad() rely on s_freeSessionSlots
+       being the number of slots that are not occupied */
+    if (rc == TPM_RC_SUCCESS) {
+        UINT32 freeSlots = 0;
+
+        for (i = 0; i < ARRAY_SIZE(s_sessions); i++) {
+            if (!s_sessions[i].occupied)
+                freeSlots++;
+        }
+        if ((UINT32)s_freeSessionSlots != freeSlots) {
+            TPMLIB_LogTPM2Error("Volatile state: s_freeSessionSlots is %u but "
+                                "%u session slots are free\n",
+                                (UINT32)s_freeSessionSlots, freeSlots);
+            rc = TPM_RC_BAD_PARAMETER;
+        }
+    }
 #else
 # error Unsupport #define value(s)
 #endif
